@@ -1605,15 +1605,17 @@ fn parse_expr_unchecked(
                 .type_registry
                 .get_type_layer(composite_ty_nomod);
 
-            // If it is a constant buffer then auto unwrap the inner type
+            // If it is a constant buffer of a struct then auto unwrap the inner type
+            // The members of the struct are the only members a constant buffer has
             if let ir::TypeLayer::Object(ir::ObjectType::ConstantBuffer(inner)) =
                 composite_tyl_nomod
             {
-                composite_ty_nomod = context.module.type_registry.remove_modifier(inner);
-                composite_tyl_nomod = context
-                    .module
-                    .type_registry
-                    .get_type_layer(composite_ty_nomod);
+                let inner_ty_nomod = context.module.type_registry.remove_modifier(inner);
+                let inner_tyl_nomod = context.module.type_registry.get_type_layer(inner_ty_nomod);
+                if let ir::TypeLayer::Struct(_) = inner_tyl_nomod {
+                    composite_ty_nomod = inner_ty_nomod;
+                    composite_tyl_nomod = inner_tyl_nomod;
+                }
             }
 
             match composite_tyl_nomod {
